@@ -157,3 +157,48 @@ package weshnet
 //@   ensures [C16.cm.wait.unlock] unlocked(addr(m.muState))
 //@   ensures [C16.cm.wait.result] (ret1 ==> len(ret0) > 0) && (!ret1 ==> cancelled(ctx))
 //@   loop 0 invariant locked(addr(m.muState)) && (!ok ==> cancelled(ctx)) && sg != nil && sg.notify != nil && sg.notify.L == addr(m.muState) && unlocked(addr(sg.notify.mu)) && cmOK(m)
+
+//@ # ======================= C12: invitations and replication descriptors =======================
+//@ # the descriptor handed to a replication service: no secret and no secret signature; the same group id; the
+//@ # signing public key and the (one-way) link key of the full group
+//@ func FilterGroupForReplication
+//@   for C12
+//@   safety
+//@   requires m != nil
+//@   ensures [C12.descriptor.nosecret] ret1 == nil ==> ret0 != nil && fresh(ret0) && ret0.Secret == nil && ret0.SecretSig == nil && ret0.GroupType == 0
+//@   ensures [C12.descriptor.id] ret1 == nil ==> ret0.PublicKey == m.PublicKey && ret0.LinkKeySig == m.LinkKeySig
+//@   ensures [C12.descriptor.signpub] ret1 == nil ==> len(ret0.SignPub) != 0 && bytes(ret0.SignPub) == sigpub(bytes(m.SignPub), bytes(m.Secret))
+//@   ensures [C12.descriptor.linkkey] ret1 == nil && len(m.LinkKey) != 32 ==> bytes(ret0.LinkKey) == linkkey(bytes(m.PublicKey), bytes(m.Secret))
+//@ # hence the descriptor designates the same signing key as the full group (sigpub of the descriptor is its SignPub)
+//@ lemma C12.same_signing_key: forall sp Bytes, sec Bytes {sigpub(sp, sec)} :: blen(sigpub(sp, sec)) != 0 ==> sigpub(sigpub(sp, sec), bempty) == sigpub(sp, sec)
+//@   for C12
+
+//@ # the access controller (hence the log address) of a store is computed from exactly three strings: the hex of the
+//@ # group's signing public key, the hex of the group id and the store type - nothing else of the group
+//@ extern berty.tech/weshnet/v2.simpleAccessControllerCID(allowedKeys) (c, err)
+//@   noeffect
+//@ func defaultACForGroup
+//@   for C12
+//@   requires g != nil
+//@   at berty.tech/weshnet/v2.simpleAccessControllerCID requires [C12.address.inputs] allowedKeys != nil
+//@        && has(allowedKeys, "write") && len(allowedKeys["write"]) == 1 && allowedKeys["write"][0] == hexs(sigpub(bytes(caller_g.SignPub), bytes(caller_g.Secret)))
+//@        && has(allowedKeys, "group_id") && len(allowedKeys["group_id"]) == 1 && allowedKeys["group_id"][0] == hexs(bytes(caller_g.PublicKey))
+//@        && has(allowedKeys, "store_type") && len(allowedKeys["store_type"]) == 1 && allowedKeys["store_type"][0] == caller_storeType
+//@        && (forall k Bytes {has(allowedKeys, k)} :: has(allowedKeys, k) ==> k == "write" || k == "group_id" || k == "store_type")
+
+//@ # joining by invitation: an event is appended only for a valid invitation that designates a multi-member group
+//@ extern (*berty.tech/weshnet/v2.MetadataStore).typeChecker(m, types) (r)
+//@   noeffect
+//@ extern (*berty.tech/weshnet/v2.MetadataStore).checkIfInGroup(m, pk) (r)
+//@   noeffect
+//@ extern (*berty.tech/weshnet/v2.MetadataStore).attributeSignAndAddEvent(m, ctx, evt, eventType) (op, err)
+//@   havocall
+//@ func (*MetadataStore).GroupJoin
+//@   for C12
+//@   safety
+//@   requires m != nil
+//@   havocall
+//@   at (*berty.tech/weshnet/v2.MetadataStore).attributeSignAndAddEvent requires [C12.join.valid] caller_g != nil && caller_g.GroupType == 3 && len(caller_g.PublicKey) == 32
+//@        && verify(bytes(caller_g.PublicKey), bytes(caller_g.Secret), bytes(caller_g.SecretSig))
+//@   at (*berty.tech/weshnet/v2.MetadataStore).attributeSignAndAddEvent requires [C12.join.event] typeis(evt, "*berty.tech/weshnet/v2/pkg/protocoltypes.AccountGroupJoined")
+//@        && as(evt, "*berty.tech/weshnet/v2/pkg/protocoltypes.AccountGroupJoined").Group == caller_g && eventType == 101
